@@ -49,19 +49,22 @@ type c14cfg struct {
 	Samples int
 }
 
-func mkOp(b *msg.Box, d string) func() {
+func mkOp(b *msg.Box, d string) func() { return mkOpShift(b, d, 0) }
+
+// mkOpShift: the topic letter is shifted by `shift` (the same configuration replayed on another topic).
+func mkOpShift(b *msg.Box, d string, shift byte) func() {
 	f := strings.Split(d, ":")
 	switch f[0] {
 	case "r":
 		var src int
 		fmt.Sscanf(f[2], "%d", &src)
-		topic := topicOf(f[1][0])
+		topic := topicOf(f[1][0] + shift)
 		id := f[3]
 		return func() {
 			b.HandleMessage(&tss.IncMessage{MsgType: uint8(tss.MsgTypeMPC), Topic: topic, Source: uint16(src), Data: []byte(id)})
 		}
 	case "s":
-		topic := topicOf(f[1][0])
+		topic := topicOf(f[1][0] + shift)
 		return func() { b.Send(uint8(tss.MsgTypeMPC), topic, []byte("out"), 99) }
 	}
 	panic("bad op " + d)
